@@ -694,7 +694,15 @@ func scMatches(sc *Scenario, prop string) bool {
 		// "all instants at which a command probes the key relative to the deadline": the expired-key pairs
 		return sc.Gen && strings.HasPrefix(sc.ID, "pair:expired:")
 	}
-	return prop == "C09" && sc.Gen && (strings.HasPrefix(sc.ID, "pair:list:") || strings.HasPrefix(sc.ID, "pair:blocking:"))
+	if prop == "C09" {
+		return sc.Gen && (strings.HasPrefix(sc.ID, "pair:list:") || strings.HasPrefix(sc.ID, "pair:blocking:"))
+	}
+	// the per-type properties borrow the generated pairs of their type: "any sequence of commands"
+	// includes sequences issued by two clients at once, which must behave like one of the two orders
+	if pre, ok := map[string]string{"C01": "pair:string:", "C10": "pair:hash:", "C11": "pair:set:", "C12": "pair:zset:", "C18": "pair:stream:"}[prop]; ok {
+		return sc.Gen && strings.HasPrefix(sc.ID, pre)
+	}
+	return false
 }
 
 // runRace runs the -race binary scenario by scenario and parses its reports.
